@@ -284,6 +284,7 @@ func c06Spaces(c *fw.Ctx) {
 	c06IncludeSpace(c)
 	c06IncludeDirSpace(c)
 	c06LongSpace(c)
+	c06CompletionLimitSpace(c)
 }
 
 // ---------------------------------------------------------------------------------------------
